@@ -14,6 +14,7 @@ from mxlpy.meta.sympy_tools import (
     sympy_to_inline_py,
     sympy_to_inline_rust,
 )
+from mxlpy.types import InitialAssignment
 
 if TYPE_CHECKING:
     from collections.abc import Callable
@@ -49,7 +50,22 @@ def _generate_model_code(
     source: list[str] = []
     # Model components
     variables = model.get_initial_conditions()
-    parameters = dict(model.get_parameter_values())  # copy, free parameters are removed
+    cache = model._create_cache()  # noqa: SLF001
+    # Parameters defined by an initial assignment are written with the value the
+    # model resolved for them (a copy, free parameters are removed)
+    derived_parameters = model.get_derived_parameter_names()
+    parameters = {
+        k: v
+        for k, v in cache.all_parameter_values.items()
+        if k not in derived_parameters
+    }
+    if free_parameters and any(
+        isinstance(p.value, InitialAssignment)
+        for p in model.get_raw_parameters(as_copy=False).values()
+    ):
+        # the resolved values are only valid for the parameter values of the model
+        msg = "Free parameters cannot be combined with parameters defined by an initial assignment."
+        raise NotImplementedError(msg)
 
     if imports is not None:
         source.extend(imports)
@@ -77,7 +93,7 @@ def _generate_model_code(
     # name is assigned before it is used
     all_derived = model.get_raw_derived()
     all_reactions = model.get_raw_reactions()
-    for name in model._create_cache().order:  # noqa: SLF001
+    for name in cache.order:
         if (derived := all_derived.get(name)) is not None:
             expr = custom_fns.get(name)
             if expr is None:
